@@ -406,12 +406,14 @@ def check_oracle(dirname, oracles):
         if cli_args.debug:
             print('We found compiler crash')
         for pid, proc_res in oracles.items():
-            if not proc_res.failed:
-                shutil.copytree(
-                    os.path.join(cli_args.test_directory, 'tmp', str(pid)),
-                    os.path.join(cli_args.test_directory, str(pid)))
-                proc_res.stats['error'] = compiler.crash_msg
+            if proc_res.failed:
                 output[pid] = proc_res.stats
+                continue
+            shutil.copytree(
+                os.path.join(cli_args.test_directory, 'tmp', str(pid)),
+                os.path.join(cli_args.test_directory, str(pid)))
+            proc_res.stats['error'] = compiler.crash_msg
+            output[pid] = proc_res.stats
         return output, compilation_time
 
     output = {}
